@@ -152,10 +152,9 @@ func runC13(c c13Case) *Violation {
 					return viol("c13/good-login-refused", "%s: a valid callback was answered %d %s", what, cr.Code, shorten(cr.Body))
 				}
 				j.auth, j.user, j.unspec, j.broken = true, op.User, false, false
-			} else if cr.Code == http.StatusFound && strings.HasPrefix(cr.Header.Get("Location"), "/connect") && !j.auth {
-				// a failing callback must not even look successful
-				return viol("c13/failing-callback-redirects/"+op.Fault, "%s: a failing callback was answered like a successful one (302 to %s)", what, cr.Header.Get("Location"))
 			}
+			// how a failing callback is answered is not part of the statement; what matters is checked right below:
+			// the session must not be served a connection file afterwards
 		case "mutate":
 			ck := sessionCookieOf(j.b, in)
 			if ck == nil || ck.Value == "" {
